@@ -312,6 +312,13 @@ fn build(ctx: &Ctx, tier: Tier, seed: u64) -> Vec<Job<'static>> {
                     x.script.push(Entry::User { ent, op: UserOp::Suspend, put: 0, at: p.clone() });
                     x.script.push(Entry::User { ent, op: UserOp::Resume, put: 0, at: Trigger::Plus(Box::new(p.clone()), d) });
                     sweep.push(x.clone());
+                    // a Prompt(NAK) of the sending user reaches the suspended receiver (round 7): the stored
+                    // prompt must not be answered before the resume, whatever arrives meanwhile (EOF)
+                    if ent == 1 && !unack && (d == t / 2 || d == 3 * t) {
+                        let mut y = x.clone();
+                        y.script.push(Entry::User { ent: 0, op: UserOp::PromptNak, put: 0, at: Trigger::Plus(Box::new(p.clone()), 3000) });
+                        sweep.push(y);
+                    }
                     // unacknowledged mode with closure: the Finished PDU lost once
                     if unack && x.ents[0].closure && d <= t / 8 && lim >= 2 {
                         let mut y = x.clone();
@@ -331,12 +338,12 @@ fn build(ctx: &Ctx, tier: Tier, seed: u64) -> Vec<Job<'static>> {
     let sw = Arc::new(sweep);
     let sw2 = sw.clone();
     let j0 = Job {
-        label: "suspend-point sweep: Suspend at sender or receiver after every PDU of the exchange, Resume after {0, 1 ms, T/8, T/2, T, 3T, 10*limit*T}, a third of the short ones with a single loss".into(),
+        label: "suspend-point sweep: Suspend at sender or receiver after every PDU of the exchange, Resume after {0, 1 ms, T/8, T/2, T, 3T, 10*limit*T}, a third of the short ones with a single loss; receiver suspensions of T/2 and 3T also with a Prompt(NAK) of the sending user 3 ms into the suspension".into(),
         n: sw.len(),
         gen: Box::new(move |i| sw2[i].clone()),
     };
     let j1 = Job {
-        label: "seeded: wild link faults, suspend/resume at both sides, suspension never resumed, Suspend fault handlers".into(),
+        label: "seeded: wild link faults, suspend/resume at both sides, suspension never resumed, Suspend fault handlers, prompts of the sending user around a quarter of the suspensions".into(),
         n: n_rand,
         gen: Box::new(move |i| {
             let mut rng = Rng::new(mix(seed ^ 0xC19A, i as u64));
@@ -361,6 +368,10 @@ fn build(ctx: &Ctx, tier: Tier, seed: u64) -> Vec<Job<'static>> {
                 let ent = rng.usize_below(2);
                 let at = Trigger::AfterPdu { src: 0, dst: 1, n: rng.below(prof.fwd.len() as u64 + 2) as u32 };
                 sc.script.push(Entry::User { ent, op: UserOp::Suspend, put: 0, at: at.clone() });
+                if rng.chance(1, 4) {
+                    // prompts of the sending user landing inside (or around) the suspension
+                    sc.script.push(Entry::User { ent: 0, op: *rng.pick(&[UserOp::PromptNak, UserOp::PromptNak, UserOp::PromptKa]), put: 0, at: Trigger::Plus(Box::new(at.clone()), *rng.pick(&[0u64, 2000, 50_000, 800_000])) });
+                }
                 if rng.chance(4, 5) {
                     sc.script.push(Entry::User { ent, op: UserOp::Resume, put: 0, at: Trigger::Plus(Box::new(at), *rng.pick(&[0u64, 1000, 100_000, 1_500_000, 20_000_000])) });
                 }
